@@ -11,6 +11,8 @@ claimed = {
  "C10": ("graphsim", "Seeded search over handler supplies (global, several graph-level options, designated by key and path), plans with parallel nodes and nested graphs, handler tasks that read or close their stream copies, and schedules; oracle over the recorded callback events: exactly one start-type and one end-type per handler and execution unit, right RunInfo, designated handlers only at their node, payloads, undisturbed data flow.", G_NOTE + " Tool-call callbacks are covered by the C17 engine only as far as the run's result; no race detector (Mode A)."),
  "C11": ("graphsim", "Seeded search over stateful plans: every handler and ProcessState body performs read-yield-write inside the framework's lock and passes a mutual-exclusion monitor; oracle: monitor, lost-update counter, fresh state per run and per stateful nested execution, pre < node < post, model equality; state across interrupt/resume is checked by the C05 histories.", G_NOTE),
  "C13": ("graphsim", "Seeded fault injection: 1-2 failing nodes at any depth (error sentinel, panic, error item mid-stream), context cancellation at a drawn scheduler step, step limit; oracle: errors.As/Is recover the sentinel, ErrExceedMaxSteps, context.Canceled; message names the node path; panic value in the error; no escaped panic, no process crash, no hang.", G_NOTE + " Tool and forwarder panics are exercised by C17 and C08."),
+ "C17": ("agentsim", "Seeded search over tool sets (invokable-only, streamable-only, both), assistant messages with 1-5 calls (repeats, unknown names), failing/panicking tools, direct and in-graph use, Invoke and Stream, and schedules that decide the tool completion order; oracle: N answers in call order with ids and outputs, concat(Stream)=Invoke, failures and unknown names reported, each call executed once with its call id, no crash.", "Tools are harness tasks that yield before answering; interleavings at hook granularity (tool goroutine spawn, WaitGroup, stream operations)."),
+ "C18": ("agentsim", "Seeded search over scripted model behaviours (tool-calling turns, chunkings incl. tool-calls-first and text-first, endless scripts), tool sets, return-directly sets and step limits; Generate and Stream are both run; oracle: the message history each model call sees, the returned message, the step-limit error, Generate = concat(Stream), against a small reference model of the loop.", "The chat model is a scripted stub (the simulated remote party); the default tool-call checker is only combined with chunkings it is documented to support."),
  "C03": ("graphsim", "Seeded search over schedules of executor goroutines and run loop (hook points inside the task manager hand-off) on plans with >=3 parallel nodes in batch and eager mode; oracle: model equality on every schedule, push/hand-off/collect conservation per run loop, deadlock detector, no return before executions finished, step budget.", G_NOTE),
  "C08": ("streamsim", "Seeded search over random stream operator trees (pipe/array/copy/merge/convert), producer and consumer tasks and schedules under the deterministic kernel; per-reader sequence algebra checked over the recorded history; deadlock, leftover-goroutine and writer-told monitors.",
          "Interleavings at hook granularity (every send/recv/close/once/select); multi-ready select decided by a seam; data races below hook granularity are not visible in Mode A."),
@@ -37,6 +39,7 @@ m = {
  "engines": [
    {"name":"kernel","path":"sim/kernel","serves_properties":sorted(claimed),"kind_free_text":"deterministic scheduler: real goroutines parked at hook points, released one at a time when a stop-the-world goroutine snapshot shows the process quiescent; every choice from one recorded tape"},
    {"name":"graphsim","path":"sim/graphsim","serves_properties":[p for p in sorted(claimed) if claimed[p][0]=="graphsim"],"kind_free_text":"random plan generator (Pregel/DAG/Workflow, nesting, state, streams), eino graph builder with recording harness lambdas, independent reference model, oracles"},
+   {"name":"agentsim","path":"sim/agentsim","serves_properties":["C17","C18"],"kind_free_text":"ToolsNode and ReAct agent with simulated tools and a scripted chat model as tasks; reference model of the loop"},
    {"name":"streamsim","path":"sim/streamsim","serves_properties":["C08"],"kind_free_text":"random stream operator trees with producer/consumer tasks and a sequence-algebra oracle"},
  ],
  "checks": [],
